@@ -317,9 +317,33 @@ func c16CheckLone(r *core.Run, tail string) *core.Violation {
 		d["\uFFFD"] = json.Number("2")
 	}
 	o := core.Search(expr, d)
+	core.Compile(expr)
+	// the same after a decoded prefix, and other ways of failing half-way through a literal
+	for _, bad := range []string{`"pre\n` + `\uD83D` + tail + `"`, `"price\x"`, `"a\tb\u12"`, `"\u0041\uDC00"`, "`\"a\\qb\"`", `'a\'b`, "`[\"ok\", \"a\\x\"]`"} {
+		core.Search(bad, d)
+		core.Compile(bad)
+	}
 	r.Eval(o)
 	r.Add("states", 1)
 	r.Add("transitions", 1)
+	// whatever the verdict on this text was, the next literals decode as if nothing had happened before them
+	for _, after := range [][3]string{{`"tab\there"`, `{"tab\there":1}`, "1"}, {`"\u0041\\b"`, `{"A\\b":1}`, "1"}, {"`\"x\\ny\"`", "null", `"x\ny"`}, {`{"k\u00e9": @}."k\u00e9"`, `7`, "7"}, {`'it\'s'`, "null", `"it's"`}} {
+		ad := mkDoc(after[1])
+		ao := core.Search(after[0], ad.Raw)
+		ce, _ := core.Compile(after[0])
+		var co core.Obs
+		if ce != nil {
+			co = core.ExprSearch(ce, ad.Raw)
+		}
+		r.Add("evaluations", 2)
+		want := mkDoc(after[2]).Norm
+		for _, got := range []core.Obs{ao, co} {
+			if got.Kind != "ok" || !core.EqualFast(got.Val, want) {
+				return &core.Violation{Sig: "C16/literal-after-a-rejected-identifier", Desc: fmt.Sprintf("Search(%q, %s) right after Search(%q)", after[0], after[1], expr),
+					Point: map[string]any{"tail": tail, "expr": after[0], "doc": after[1]}, Expected: "ok " + after[2], Actual: got.Short()}
+			}
+		}
+	}
 	if o.Kind == "err" && len(o.Cats) == 1 && o.Cats[0] == "syntax" {
 		return nil
 	}
